@@ -749,6 +749,31 @@ impl<'a> PathRun<'a> {
                                 json!({"query": ctx.us[i].show(), "extracted": t.to_string(), "impl": best, "spec_min": spec.cost[ci][i], "cost_fn": cname}));
                             return;
                         }
+                        // The result shows the names the extractor uses for the binders of this class.  A query whose argument is
+                        // named like such a binder is legal (any slot may be an argument) and must not be captured by it.
+                        if ci == 0 && !a.slots().is_empty() {
+                            let mut bound: Vec<Slot> = Vec::new();
+                            fn bound_slots(e: &RecExpr<T>, out: &mut Vec<Slot>) { out.extend(e.node.private_slot_occurrences()); for c in &e.children { bound_slots(c, out); } }
+                            bound_slots(&t, &mut bound);
+                            bound.retain(|s2| !a.slots().contains(s2));
+                            if let Some(b) = bound.first().copied() {
+                                let k0 = a.m.keys_vec()[0];
+                                let q = AppliedId::new(a.id, a.m.iter().map(|(k, v)| (k, if k == k0 { b } else { v })).collect());
+                                // (only if the renamed invocation is still an injective one)
+                                if q.m.is_bijection() {
+                                    let r2 = guard(|| { let t2 = ex.extract(&q, eg); let back = lookup_rec_expr(&t2, eg); (t2.to_string(), back.map(|x| eg.eq(&x, &q))) });
+                                    match r2 {
+                                        Ok((_, Some(true))) => {}
+                                        Ok((t2, other)) => {
+                                            self.finding("C06", "extraction from an invocation whose argument is named like a binder of an earlier result is not represented in it (capture)", key, path, step, "",
+                                                json!({"query": ctx.us[i].show(), "first_result": t.to_string(), "argument": b.to_string(), "second_result": t2, "lookup": format!("{other:?}")}));
+                                            return;
+                                        }
+                                        Err(p) => { self.stats.panics += 1; self.finding("C06", "extract panics", key, path, step, &site_key(&p), json!({"msg": p.msg, "term": ctx.us[i].show()})); return; }
+                                    }
+                                }
+                            }
+                        }
                         // free slots: arguments of the query or brand-new
                         let mut bn = BackNamer::new(self.nm, 900);
                         let tt = bn.term(&t);
